@@ -222,6 +222,11 @@ def random_pin(rng, D, t_clad, model=None):
         body['htc_params_clad'] = [wl.loguniform(rng, 0.005, 0.05), 0.8, 0.8,
                                    float(rng.uniform(3.0, 8.0))]
         feats['htc_params'] = 'user'
+        if rng.random() < 0.6:
+            # Reynolds and Prandtl exponents need not be equal
+            body['htc_params_clad'][1] = float(rng.uniform(0.6, 0.9))
+            body['htc_params_clad'][2] = float(rng.uniform(0.3, 0.9))
+            feats['htc_params'] = 'user-unequal-exponents'
     return {'section': model, 'body': body, 'materials': mats, 'ref': ref,
             'feats': feats}
 
@@ -671,6 +676,27 @@ class RegionMonitor(object):
         res.check('region_stores_model_result', same,
                   'pin_temps[:, 3:] is not the model result for this step\'s '
                   'pin powers', dict(self.key, mech='wiring'))
+        hp = getattr(self.mon, 'user_htc', {}).get(id(reg))
+        if hp is not None:
+            # the film coefficient handed to the model is the one the
+            # clad-film parameters of the INPUT give with this step's
+            # coolant state: h = (k / De) (c0 Re^c1 Pr^c2 + c3)
+            co = reg.coolant
+            Pr = co.heat_capacity * co.viscosity / co.thermal_conductivity
+            Re = float(reg.coolant_int_params['Re'])
+            h_exp = co.thermal_conductivity / float(
+                reg.bundle_params['de']) * (hp[0] * Re ** hp[1]
+                                            * Pr ** hp[2] + hp[3])
+            h_got = np.asarray(last['args']['htc'], dtype=float)
+            res.close('film_coefficient_from_input_parameters',
+                      float(np.max(np.abs(h_got - h_exp))), abs(h_exp),
+                      1e-10, 'film coefficient handed to the pin model is '
+                      'not (k/De)(c0 Re^c1 Pr^c2 + c3) of the input\'s '
+                      'htc_params_clad', dict(self.key, mech='film_params',
+                                              equal_exponents=bool(
+                                                  hp[1] == hp[2])),
+                      {'got': float(np.ravel(h_got)[0]), 'exp': float(h_exp),
+                       'params': hp, 'Re': Re, 'Pr': float(Pr)})
         A = self.adj.get(id(reg.subchannel))
         if A is None:
             A = geometric_adjacency(reg)
@@ -939,6 +965,11 @@ def _register_all(r, P, pins, mon, where):
         key = {'model': f['model'], 'annular': f['annular'],
                'gap': f['gap'], 'where': where}
         mon.register(reg.pin_model, pr.PinRef(pin['ref']), key)
+        hp = pin['body'].get('htc_params_clad')
+        if hp is not None:
+            if not hasattr(mon, 'user_htc'):
+                mon.user_htc = {}
+            mon.user_htc[id(reg)] = [float(x) for x in hp]
         n += 1
     return n
 
